@@ -143,6 +143,18 @@ LIFECYCLE_NOTE = (
 )
 
 
+EXTRA_TEXT = {
+    "C02": " Another simulation of the same device is scheduled inside psi updates of the run (guest at the n-th line within the update of psi) in 12 % of the runs.",
+    "C05": " One history in twelve is a cancelled bounded run (two thirds cancelled in the update, one third inside the frame writer).",
+    "C08": " 3 % of the scenarios use a mesh of 5600..8400 sites (more than 2^14 edges).",
+    "C13": " 8 % of the runs are bare calls of the accelerated kernel on random currents / areas / point sets of 1..12289 source sites against the direct double sum.",
+    "C14": " Storage operations include 'the caller edits its Device in place after the solve' (the Solution held must still equal its file).",
+    "C16": " Values returned earlier in an evaluation history are kept and must not be changed by later evaluations.",
+    "C17": " Strongly disturbed guest simulations (contacts pinned to zero, suppressed epsilon, a field) are scheduled inside steps of the quiescent run.",
+    "C19": " The floating-terminal class is also instantiated on a device that re-uses the mesh of a well-posed sibling that was looked at or simulated on first.",
+}
+
+
 def main():
     checks = []
     for pid, (cat, text, note, tech, ref, tq, tt) in sorted(CHECKS.items()):
@@ -156,7 +168,7 @@ def main():
                 "evidence_file": f"/verif/evidence/{pid}.json",
                 "replay_cmd_template": f"timeout 600 {PY} {pid} --replay {{path}}",
                 "engine": "tdglsim",
-                "level_claimed": {"category": cat, "text": text, "design_ref": ref},
+                "level_claimed": {"category": cat, "text": text + EXTRA_TEXT.get(pid, ""), "design_ref": ref},
                 "level_note": note + LIFECYCLE_NOTE,
                 "technique": tech,
             }
